@@ -38,6 +38,7 @@ def _init(pid):
 def _work(args):
     shard, tier, seed = args
     rec = Rec()
+    rec.shard = shard
     try:
         _MOD.run_shard(shard, tier, seed, rec)
         return ("ok", rec.dump())
@@ -49,11 +50,32 @@ def _viol_key(v):
     return (v["cost"], len(json.dumps(v["case"])), json.dumps(v["case"], sort_keys=True))
 
 
-def _replay_obs(mod, case, seed):
+def _tuplify(o):
+    if isinstance(o, list):
+        return tuple(_tuplify(x) for x in o)
+    return o
+
+
+def _replay_obs(mod, v, seed, tier="quick"):
+    """re-execute one counterexample: first the single case on fresh objects; if that does not
+    reproduce (the failure depends on what the shard did before, e.g. state leaking between
+    calls on one Grid), the shard that produced it is re-run and the case picked out."""
     rec = Rec()
-    mod.replay_case(case, seed, rec)
+    mod.replay_case(v["case"], seed, rec)
+    if not rec.viol and v.get("shard") is not None:
+        try:
+            rec2 = Rec()
+            rec2.MAXVIOL = 10 ** 6
+            mod.run_shard(_tuplify(v["shard"]), v.get("tier", tier), seed, rec2)
+            rec2.viol = [w for w in rec2.viol if w["sub"] == v["sub"] and w["cls"] == v["cls"] and w["case"] == v["case"]]
+            for w in rec2.viol:
+                w["note"] = (w.get("note", "") + " [reproduces only in the context of its shard: depends on earlier calls]").strip()
+            if rec2.viol:
+                rec = rec2
+        except Exception:
+            pass
     return sorted(
-        (v["sub"], v["cls"], json.dumps(v["observed"], sort_keys=True)) for v in rec.viol
+        (w["sub"], w["cls"], json.dumps(w["observed"], sort_keys=True)) for w in rec.viol
     ), rec
 
 
@@ -78,12 +100,11 @@ def write_replay(pid, v, seed, tier):
             "# stand-alone replay of one counterexample (no explorer involved)\n"
             "import json, os, sys\n"
             f"sys.path.insert(0, {VERIF!r})\n"
-            "from xmc.core import Rec\n"
+            "from xmc.run import _replay_obs\n"
             f"from xmc.checks import {pid.lower()} as chk\n\n"
             f"def test_replay():\n"
             f"    v = json.load(open({path!r}))\n"
-            "    rec = Rec()\n"
-            "    chk.replay_case(v['case'], v['seed'], rec)\n"
+            "    obs, rec = _replay_obs(chk, v, v['seed'], v['tier'])\n"
             "    assert not rec.viol, rec.viol[0]\n\n"
             "if __name__ == '__main__':\n    test_replay()\n"
         )
@@ -109,7 +130,7 @@ def main(argv=None):
     if a.replay:
         with open(a.replay) as f:
             v = json.load(f)
-        obs, rec = _replay_obs(mod, v["case"], v.get("seed", seed))
+        obs, rec = _replay_obs(mod, v, v.get("seed", seed), v.get("tier", tier))
         for w in rec.viol:
             print(json.dumps(dict(sub=w["sub"], cls=w["cls"], expected=w["expected"], observed=w["observed"], note=w["note"][:400]), indent=1))
         if rec.viol:
@@ -177,8 +198,8 @@ def main(argv=None):
     if fresh:
         v = fresh[0]
         # determinism discipline: replay twice here and once in a fresh interpreter
-        o1, _ = _replay_obs(mod, v["case"], seed)
-        o2, _ = _replay_obs(mod, v["case"], seed)
+        o1, _ = _replay_obs(mod, v, seed, tier)
+        o2, _ = _replay_obs(mod, v, seed, tier)
         if o1 != o2:
             print("HARNESS-ERROR: replay of the counterexample is not deterministic")
             print(json.dumps(v, indent=1)[:2000])
